@@ -129,6 +129,10 @@ func (u *Unit) evalCall(st *State, call *ast.CallExpr) Val {
 				idx := sel.Index()
 				if len(idx) > 1 {
 					base = u.walkFields(st, base, idx[:len(idx)-1], se)
+				} else if _, wantPtr := sig.Recv().Type().Underlying().(*types.Pointer); wantPtr && base.T != nil {
+					if _, isPtr := base.T.Underlying().(*types.Pointer); !isPtr && !isStructVal(base.T) && !isArrayT(base.T) {
+						base = u.addrOf(st, se.X)
+					}
 				}
 				recv = &base
 			}
@@ -162,6 +166,18 @@ func (u *Unit) evalCall(st *State, call *ast.CallExpr) Val {
 			rest := args[n:]
 			packed := u.packSlice(st, vt, rest)
 			args = append(args[:n:n], packed)
+		}
+	}
+	for i := range args {
+		if i < sig.Params().Len() {
+			pt := sig.Params().At(i).Type()
+			if sig.Variadic() && i == sig.Params().Len()-1 {
+				continue
+			}
+			if _, isTP := pt.(*types.TypeParam); isTP {
+				continue
+			}
+			args[i] = u.coerce(st, args[i], pt)
 		}
 	}
 	return u.dispatchCall(st, call, fn, recv, args)
@@ -279,8 +295,24 @@ func (u *Unit) callContract(st *State, c *Contract, fn *types.Func, recv *Val, a
 			u.reject("contract error: %v", err)
 		}
 	}
+	// the callee may allocate: the frontier moves (needed by fresh() and by-value results)
+	nf := u.fresh("frontier", SInt)
+	st.assume(tLe(st.frontier, nf))
+	st.frontier = nf
 	// results
 	res := u.havocResults(st, sig, fn.Name())
+	{
+		rvs := []Val{res}
+		if res.Kind == KTuple {
+			rvs = res.Elems
+		}
+		for _, rv := range rvs {
+			if rv.Kind == KScalar && (isStructVal(rv.T) || isArrayT(rv.T)) && !isOpaqueStruct(rv.T) {
+				// values returned by value are private copies
+				st.assume(tAnd(tLe(old.frontier, rv.S), tLt(rv.S, st.frontier)))
+			}
+		}
+	}
 	penv := u.contractEnv(st, old, c, fn, sig, recv, args)
 	for k, v := range env.vars {
 		if _, ok := penv.vars[k]; !ok {
@@ -288,13 +320,20 @@ func (u *Unit) callContract(st *State, c *Contract, fn *types.Func, recv *Val, a
 		}
 	}
 	u.bindResults(penv, c, sig, res)
-	for _, e := range c.Ensures {
+	for _, e := range append(append([]Clause{}, c.Ensures...), c.GhostEns...) {
 		t, err := u.specBool(penv, e)
 		if err != nil {
 			u.reject("contract error: %v", err)
 			continue
 		}
 		st.assume(t)
+	}
+	if len(c.GhostEns) > 0 {
+		u.note("assumptions", "ghost definitions (ghost_ensures, assumed not checked) of "+funcKey(fn))
+	}
+	// vacuity canary (aggregated over all call sites of this callee): assuming the contract must leave some call reachable
+	if u.root().inlining == 0 || true {
+		u.cover(st, "after:"+short, pos)
 	}
 	if c.Trusted {
 		u.note("trusted", funcKey(fn))
@@ -392,6 +431,125 @@ func (u *Unit) bindResults(env *specEnv, c *Contract, sig *types.Signature, res 
 	}
 }
 
+type modTarget struct {
+	heap string
+	idx  Term // "" = the whole heap
+	win  *Val // for content(s): the slice window
+}
+
+// modTargets resolves a modifies clause to heap locations without changing the state.
+func (u *Unit) modTargets(st *State, env *specEnv, m Clause) (ts []modTarget, err error) {
+	defer func() {
+		if r := recover(); r != nil {
+			if se, ok := r.(specError); ok {
+				err = fmt.Errorf("%s", se.msg)
+				return
+			}
+			panic(r)
+		}
+	}()
+	env.where = m.Where
+	switch x := m.Expr.(type) {
+	case *ast.CallExpr:
+		name := ""
+		if id, ok := x.Fun.(*ast.Ident); ok {
+			name = id.Name
+		}
+		switch name {
+		case "content":
+			v := u.specEval(env, x.Args[0])
+			if v.Kind == KSlice {
+				el := v.T.Underlying().(*types.Slice).Elem()
+				hn, _ := u.elemHeapName(el)
+				vv := v
+				return []modTarget{{hn, v.Arr, &vv}}, nil
+			}
+			if at, ok := v.T.Underlying().(*types.Array); ok {
+				hn, _ := u.elemHeapName(at.Elem())
+				return []modTarget{{hn, v.S, nil}}, nil
+			}
+			return nil, fmt.Errorf("%s: content() of non-slice", m.Where)
+		case "mapof":
+			v := u.specEval(env, x.Args[0])
+			mt, ok := v.T.Underlying().(*types.Map)
+			if !ok {
+				return nil, fmt.Errorf("%s: mapof() of non-map", m.Where)
+			}
+			d, vh, c := mapHeaps(mt)
+			ts = []modTarget{{d, v.S, nil}, {c, v.S, nil}, {vh, v.S, nil}}
+			for _, suf := range []string{".arr", ".off", ".len", ".cap"} {
+				ts = append(ts, modTarget{vh + suf, v.S, nil})
+			}
+			return ts, nil
+		case "all":
+			var b strings.Builder
+			printNode(&b, u.eng.fset, x.Args[0])
+			nm := strings.TrimSpace(b.String())
+			if g, ok := u.eng.cs.Ghosts[nm]; ok {
+				return []modTarget{{"G$" + g.Name, "", nil}}, nil
+			}
+			if i := strings.LastIndex(nm, "."); i > 0 {
+				_, T, _ := env.specType(nm[:i])
+				if T != nil {
+					base := fieldHeap(T, nm[i+1:])
+					ts = []modTarget{{base, "", nil}}
+					for _, suf := range []string{".arr", ".off", ".len", ".cap"} {
+						ts = append(ts, modTarget{base + suf, "", nil})
+					}
+					return ts, nil
+				}
+			}
+			return nil, fmt.Errorf("%s: cannot resolve %q", m.Where, nm)
+		}
+		if g, ok := u.eng.cs.Ghosts[name]; ok {
+			if len(x.Args) == 0 {
+				return []modTarget{{"G$" + g.Name, "", nil}}, nil
+			}
+			a0 := u.specEval(env, x.Args[0])
+			return []modTarget{{"G$" + g.Name, a0.S, nil}}, nil
+		}
+	case *ast.SelectorExpr:
+		base := u.specEval(env, x.X)
+		if base.T == nil {
+			return nil, fmt.Errorf("%s: modifies target %q has no type", m.Where, m.Text)
+		}
+		T := base.T
+		if p, ok := T.Underlying().(*types.Pointer); ok {
+			T = p.Elem()
+		}
+		obj, index := lookupFieldAnyPkg(T, x.Sel.Name)
+		if obj == nil {
+			return nil, fmt.Errorf("%s: no field %s", m.Where, x.Sel.Name)
+		}
+		ref := base.S
+		cur := T
+		for k, i := range index {
+			f := structOf(cur).Field(i)
+			if k == len(index)-1 {
+				hb := fieldHeap(cur, f.Name())
+				if isSliceT(f.Type()) {
+					for _, suf := range []string{".arr", ".off", ".len", ".cap"} {
+						ts = append(ts, modTarget{hb + suf, ref, nil})
+					}
+					return ts, nil
+				}
+				return []modTarget{{hb, ref, nil}}, nil
+			}
+			v := u.fieldRead(st, cur, f, ref)
+			ref = v.S
+			cur = f.Type()
+			if p, ok := cur.Underlying().(*types.Pointer); ok {
+				cur = p.Elem()
+			}
+		}
+	case *ast.Ident:
+		if x.Name == "everything" {
+			return []modTarget{{"*", "", nil}}, nil
+		}
+	}
+	return nil, fmt.Errorf("%s: unsupported modifies target %q", m.Where, m.Text)
+}
+
 // havocTarget havocs the location(s) named by a modifies clause.
 func (u *Unit) havocTarget(st *State, env *specEnv, m Clause) (err error) {
 	defer func() {
@@ -455,7 +613,10 @@ func (u *Unit) havocTarget(st *State, env *specEnv, m Clause) (err error) {
 			}
 			sort := u.ghostSort(env, g)
 			h := u.heapTerm(st, "G$"+g.Name, sort)
-			rs, _, _ := env.specType(g.Ret)
+			rs := sort
+			for range args {
+				rs = arrayElemSort(rs)
+			}
 			nv := u.fresh("g."+g.Name, rs)
 			// nested store
 			if len(args) > 0 {
